@@ -1,6 +1,6 @@
 (** C05 over the Go source (Generated/Src.v: GenerateOCRA, deriveRFC6287, padBytes, formatDecimal, truncate). *)
 From Coq Require Import String.
-From OtpV Require Import Prelude Sha GoSem Tables Decoder Derive Otp Ocra Rfc4226 Rfc6287 Errors OcraProofs Src SrcLift SrcEqOtp SrcEqOcra SrcTop C05.
+From OtpV Require Import Prelude Sha GoSem Tables Decoder Derive Otp Ocra Rfc4226 Rfc6287 Errors OcraProofs Src SrcLift SrcTop SrcEqDecode SrcEqOtp SrcEqOcraV SrcEqOcra C05.
 Open Scope N_scope.
 
 Theorem C05src_value : forall fuel junk junkmsg secret key cfg i a,
